@@ -184,6 +184,18 @@ def handleGen (op : String) (args : List String) : Option String :=
       let a := r.2.1
       s!"ok time={hex (encLE_util_EFITime a.Time)} len={a.AuthInfo.Header.Length.toNat} rev={a.AuthInfo.Header.Revision.toNat} type={a.AuthInfo.Header.CertType.toNat} guid={hex (gWire a.AuthInfo.CertType)} data={hex a.AuthInfo.CertData} rest={r.1.length} reenc={hex (a.Marshal [])}"
     else "err")
+  | "gen.efivars.parse", [h, sz] =>
+    -- attributes.ParseEfivars and its FSWrapper twin on a reader holding `h`, with the Stat size `sz`
+    let bs := unhex h
+    let size : Int := sz.toInt?.getD 0
+    -- size < 4: the attribute read comes first; after it `make([]byte, size-4)` has a negative length
+    -- (a run-time panic that the list translation does not show: the theorems assume 4 ≤ size)
+    if size < 4 then some (if bs.length < 4 then "err" else "panic") else
+    let show1 := fun (r : List UInt8 × attributes.Attributes × List UInt8 × GoErr) =>
+      if r.2.2.2.isNone then s!"ok attrs={r.2.1.toNat} value={hex r.2.2.1} rest={r.1.length}" else "err"
+    let a := show1 (attributes.ParseEfivars bs size)
+    let b := show1 (fswrapper.FSWrapper.ParseEfivars ⟨false, false, ⟨⟩⟩ bs size)
+    some (if a == b then a else s!"twins-differ {a} / {b}")
   | "gen.wincert.read", [h] =>
     let bs := unhex h
     let r := signature.ReadWinCertificate bs
